@@ -80,6 +80,9 @@ type Rec struct {
 	// Incomplete: the record lacks the tcpState element although the process is configured to
 	// aggregate it (a malformed record; the process reports an error for it on a held flow).
 	Incomplete bool `json:"incomplete,omitempty"`
+	// HTTP: the record's httpVals element (nil = the exporter's template has none). Present in every
+	// record when the process is configured to aggregate it (ElementsVariant bit 4).
+	HTTP *string `json:"http,omitempty"`
 }
 
 // Element name tables (order: packet, octet, reversePacket, reverseOctet).
@@ -173,7 +176,8 @@ func New(active, inactive time.Duration, ch chan *entities.Message, workers int)
 // elements by name; corresponding entries of the parallel lists stay at corresponding positions).
 // Variant 0 is Elements(); 1 names the destination node's end-time element before the source
 // node's; 2 reverses the statistics lists (the throughput lists are positional - forward first,
-// reverse second - and stay as they are); 3 does both.
+// reverse second - and stay as they are); 3 does both. Bit 4 adds httpVals to the non-statistics
+// elements (every record must then carry it).
 func ElementsVariant(v int) *intermediate.AggregationElements {
 	e := Elements()
 	rev := func(a []string) []string {
@@ -189,6 +193,10 @@ func ElementsVariant(v int) *intermediate.AggregationElements {
 	if v&2 != 0 {
 		e.StatsElements, e.AggregatedSourceStatsElements, e.AggregatedDestinationStatsElements = rev(e.StatsElements), rev(e.AggregatedSourceStatsElements), rev(e.AggregatedDestinationStatsElements)
 		e.NonStatsElements = rev(e.NonStatsElements)
+	}
+	if v&4 != 0 {
+		// as Antrea's flow aggregator configures it: the HTTP values of a flow are merged as well
+		e.NonStatsElements = append([]string{"httpVals"}, e.NonStatsElements...)
 	}
 	return e
 }
@@ -295,6 +303,9 @@ func RecordElements(f FlowDef, r Rec) []entities.InfoElementWithValue {
 		u8("egressNetworkPolicyRuleAction", c.EgrAct)
 	}
 	els = append(els, entities.NewSigned32InfoElement(IE("ingressNetworkPolicyRulePriority"), c.Priority))
+	if r.HTTP != nil {
+		str("httpVals", *r.HTTP)
+	}
 	if r.Incomplete {
 		for i, el := range els {
 			if el.GetName() == "tcpState" {
